@@ -59,7 +59,7 @@ ASSUMPTIONS = [
 
 
 def budget(tier):
-    return int(os.environ.get("VERIF_BUDGET", 0)) or {"quick": 1000, "thorough": 12000}[tier]
+    return int(os.environ.get("VERIF_BUDGET", 0)) or {"quick": 700, "thorough": 12000}[tier]
 
 
 # ================================================================== case generation
@@ -90,6 +90,24 @@ RECIPES = [
     [["set_first_order_absorption", {}], ["@data", {"variant": "time-hhmm"}]],
 ]
 DATA_RECIPES = [i for i, r in enumerate(RECIPES) if any(step[0] == "@data" for step in r)]
+# transformations that often commute: a = g(f(m)), b = f(g(m)); wherever a (or a component of a) == b, hashes must agree
+COMMUTING = [
+    ["set_first_order_absorption", {}], ["add_peripheral_compartment", {}], ["add_lag_time", {}],
+    ["set_zero_order_elimination", {}], ["set_michaelis_menten_elimination", {}], ["set_zero_order_absorption", {}],
+    ["add_covariate_effect", {"parameter": "CL", "covariate": "WGT", "effect": "exp"}],
+    ["add_covariate_effect", {"parameter": "VC", "covariate": "APGR", "effect": "lin"}],
+    ["set_proportional_error_model", {}], ["set_additive_error_model", {}], ["set_combined_error_model", {}],
+    ["create_joint_distribution", {}], ["add_population_parameter", {"name": "XP", "init": 1.0}],
+    ["fix_parameters", {"parameter_names": ["POP_CL"]}], ["set_transit_compartments", {"n": 1}],
+    ["add_bioavailability", {}], ["add_estimation_step", {"method": "IMP"}], ["set_evaluation_step", {}],
+    ["add_time_after_dose", {}], ["set_initial_estimates", {"inits": {"POP_VC": 1.2}}],
+    ["add_effect_compartment", {"expr": "linear"}], ["add_metabolite", {}], ["set_seq_zo_fo_absorption", {}],
+    ["add_iiv", {"list_of_parameters": ["S1"], "expression": "exp"}], ["remove_iiv", {"to_remove": ["CL"]}],
+    ["set_lower_bounds", {"bounds": {"POP_CL": 0.001}}], ["set_name", {"new_name": "other"}],
+    ["drop_columns", {"column_names": ["FA2"]}], ["set_dvid", {"name": "FA1"}], ["add_cmt", {}], ["add_admid", {}],
+]
+ORDER_KINDS = ["odes", "statements", "parameters", "columninfo", "datainfo", "eststep", "rvs", "dists", "basic",
+               "model", "compartment", "mappings"]
 OBJECT_KINDS = ["parameter", "parameters", "columninfo", "datainfo", "frozenmapping", "eststep", "steps", "normal", "joint",
                 "rvs", "compartment", "odes", "statements", "assignment", "model_dataset", "model_iie", "varlevel"]
 
@@ -111,8 +129,10 @@ def _fn_names():
 def gen_cases(rng: random.Random, n: int, tier: str):
     names = _fn_names()
     out = []
-    n_obj = max(len(OBJECT_KINDS), n // 5)
-    n_call = n - n_obj
+    n_obj = max(len(OBJECT_KINDS), n // 8)
+    n_ord = max(len(ORDER_KINDS), n // 8)
+    n_com = max(20, n // 8)
+    n_call = max(0, n - n_obj - n_ord - n_com)
     # every function at least once per pass over the name list; recipes cycle with a seeded offset
     i = 0
     while len(out) < n_call:
@@ -129,6 +149,11 @@ def gen_cases(rng: random.Random, n: int, tier: str):
     for j in range(n_obj):
         out.append({"kind": "obj", "what": OBJECT_KINDS[j % len(OBJECT_KINDS)], "variant": rng.randrange(6),
                     "seed": rng.randrange(1 << 30)})
+    for j in range(n_ord):
+        out.append({"kind": "orders", "what": ORDER_KINDS[j % len(ORDER_KINDS)], "seed": rng.randrange(1 << 30)})
+    for j in range(n_com):
+        f, g = rng.sample(range(len(COMMUTING)), 2)
+        out.append({"kind": "commute", "f": f, "g": g, "recipe": rng.choice([0, 0, 0, 1, 2, 3, 9]), "seed": rng.randrange(1 << 30)})
     return out
 
 
@@ -146,6 +171,10 @@ def corpus_cases():
         {"kind": "call", "fn": "write_csv", "recipe": 0, "seed": 9},
         # open finding: lag time left on CENTRAL after the dose moved to TRANSIT1
         {"kind": "call", "fn": "set_transit_compartments", "recipe": 10, "seed": 325059778},
+    ] + [{"kind": "orders", "what": w, "seed": 100 + i} for i, w in enumerate(ORDER_KINDS)] + [
+        {"kind": "commute", "f": 0, "g": 1, "recipe": 0, "seed": 200},
+        {"kind": "commute", "f": 2, "g": 1, "recipe": 0, "seed": 201},
+        {"kind": "commute", "f": 6, "g": 8, "recipe": 0, "seed": 202},
     ] + [
         # time/date translation on datasets with NM-TRAN clock strings (with a DATE column, with it marked
         # dropped, with it removed, without one): the paths of translate_nmtran_time that the plain example never takes
@@ -176,9 +205,15 @@ def worker_init():
     from pharmpy.model import Model
     from harness.common.paths import scratch_root
     from harness.translate import c06_eqhash
-    table, _unh = c06_eqhash.extract()
+    # The monitors must run whatever the translator thinks of the current source: a class whose __eq__/__hash__ it
+    # refuses keeps its field list and is probed dynamically; if nothing can be extracted the table is empty.
+    try:
+        table, _unh = c06_eqhash.extract(tolerant=True)
+    except Exception as e:
+        table = []
+        _S["table_error"] = f"{type(e).__name__}: {e}"
     _S.update(np=np, pd=pd, M=M, Model=Model, table={c["name"]: c for c in table}, base={}, scratch=scratch_root(),
-              effects=None)
+              effects=None, refused={c["name"]: c["refused"] for c in table if c.get("refused")})
     shutil.rmtree(_S["scratch"], ignore_errors=True)      # created per call case, removed after it
     try:
         from harness.translate import c06_effects
@@ -688,9 +723,13 @@ def encode(x, notes):
                                                               sorted((str(k), str(val)) for k, val in attrs.items()))
                                                              for v, attrs in nbrs.items()))
                        for u, nbrs in d.items())
-        # "nodes|edges": a hash over frozenset(g.nodes) sees the part before the bar (Lean `partOf`)
-        return ["i", id(x) % (1 << 60), hashlib.sha256(repr(nodes).encode()).hexdigest()[:24] + "|"
-                + hashlib.sha256(repr(edges).encode()).hexdigest()[:24]]
+        ordered = ([sexp.dumps(encode(u, notes)) for u in x.nodes],
+                   [(sexp.dumps(encode(u, notes)), sexp.dumps(encode(v, notes)), sorted((str(k), str(val)) for k, val in at.items()))
+                    for u, v, at in x.edges(data=True)])
+        # "nodes|edges#insertion-order": a hash over frozenset(g.nodes) sees the part before the bar (Lean `partOf`),
+        # a content comparison everything before `#` (`canonOf`), an order-dependent digest the whole string
+        dg = lambda o: hashlib.sha256(repr(o).encode()).hexdigest()[:24]
+        return ["i", id(x) % (1 << 60), dg(nodes) + "|" + dg(edges) + "#" + dg(ordered)]
     if isinstance(x, pd.DataFrame):
         return ["f", id(x) % (1 << 60), _digest_frame(x)]
     if type(x).__name__ == "NONMEMModelInternals" or type(x).__name__ == "ModelInternals":
@@ -730,14 +769,32 @@ def _check_kind(c, f, v, notes):
 
 
 def _safe_hash(x):
+    """hash(x), or None when hashing raises (TypeError for unhashable content; anything else is recorded too)."""
     try:
         return hash(x)
     except TypeError:
         return None
+    except Exception as e:
+        _S.setdefault("hash_errors", set()).add(type(e).__name__)
+        return None
+
+
+def _clone_with(a, field, value):
+    x = object.__new__(type(a))
+    x.__dict__.update(vars(a))
+    x.__dict__[field] = value
+    if "_hash" in x.__dict__:            # cached hashes: frozenmapping keeps None, cache_method tests hasattr
+        if type(a).__name__ == "frozenmapping":
+            x.__dict__["_hash"] = None
+        else:
+            del x.__dict__["_hash"]
+    return x
 
 
 def _root_cause(a, b, depth=0):
-    """a == b but hash differs (or raises): the deepest (class, field) responsible."""
+    """a == b but hash differs (or raises): the deepest Class.field responsible, found by a dynamic probe that
+    needs no table: a field is responsible when giving `a` the value `b` has for it changes hash(a) (or when
+    its value is unhashable)."""
     if depth > 12:
         return "deep"
     if isinstance(a, (tuple, list)) and isinstance(b, (tuple, list)) and len(a) == len(b):
@@ -746,42 +803,39 @@ def _root_cause(a, b, depth=0):
             if hx is None or hx != hy:
                 return _root_cause(x, y, depth + 1)
         return "tuple"
-    c = _cls_of(a)
-    if c is None or _cls_of(b) != c:
-        return type(a).__name__
-    spec = _S["table"][c]
-    for f in spec["fields"]:
-        if not f["hash"]:
+    cname = _cls_of(a) or type(a).__name__
+    if not (hasattr(a, "__dict__") and hasattr(b, "__dict__")) or (type(a) is not type(b) and _cls_of(a) != _cls_of(b)):
+        return cname
+    ha = _safe_hash(a)
+    for f, va in vars(a).items():
+        if f == "_hash" or f not in vars(b):
             continue
-        va, vb = getattr(a, f["name"], None), getattr(b, f["name"], None)
-        if f["hash"] == "content":
-            pd = _S["pd"]
-            if isinstance(va, pd.DataFrame) and isinstance(vb, pd.DataFrame) and not va.equals(vb):
-                return f"{c}.{f['name']}"
-            if (va is None) != (vb is None):
-                return f"{c}.{f['name']}"
+        vb = vars(b)[f]
+        nested = isinstance(va, (tuple, list)) or (hasattr(va, "__dict__") and type(va).__module__.startswith("pharmpy"))
+        if ha is None:
+            try:
+                hash(_clone_with(a, f, None))
+                fixed_by_removal = True
+            except TypeError:
+                fixed_by_removal = False
+            if fixed_by_removal:
+                return _root_cause(va, vb, depth + 1) if nested and _safe_hash(va) is None and type(va) is type(vb) else f"{cname}.{f}"
             continue
-        if f["hash"] == "orderedItems":
-            if list(va.items()) != list(vb.items()):
-                return f"{c}.{f['name']}"
+        if va is vb:
             continue
-        if f["hash"] == "itemSet":
-            if set(va.items()) != set(vb.items()):
-                return f"{c}.{f['name']}"
-            continue
-        if f["hash"] == "contentPart":
-            if frozenset(va.nodes) != frozenset(vb.nodes):
-                return f"{c}.{f['name']}"
-            continue
-        ha, hb = _safe_hash(va), _safe_hash(vb)
-        if ha is None or hb is None or ha != hb:
-            sub_c = _cls_of(va)
-            if (sub_c is not None or isinstance(va, (tuple, list))) and ha is not None and hb is not None:
+        try:
+            changed = _safe_hash(_clone_with(a, f, vb)) != ha
+        except Exception:
+            changed = False
+        if changed:
+            try:
+                same = bool(va == vb)
+            except Exception:
+                same = False
+            if nested and same and type(va) is type(vb):
                 return _root_cause(va, vb, depth + 1)
-            if ha is None and (sub_c is not None or isinstance(va, (tuple, list))):
-                return _root_cause(va, vb, depth + 1)
-            return f"{c}.{f['name']}"
-    return c
+            return f"{cname}.{f}"
+    return cname
 
 
 def compare_pair(a, b, drv, k, mon, tags, label):
@@ -806,7 +860,15 @@ def compare_pair(a, b, drv, k, mon, tags, label):
         elif ha != hb:
             cause = _root_cause(a, b)
             mon.append({"cls": f"eq-hash-mismatch:{cause}",
-                        "what": f"{label}: a == b but hash(a) != hash(b) (a {c}; responsible field {cause})"})
+                        "what": f"{label}: a == b but hash(a) != hash(b), len({{a, b}}) == {len({a, b})} "
+                                f"(a {c}; responsible field {cause})"})
+        elif len({a, b}) != 1:
+            mon.append({"cls": f"eq-set-size:{c}", "what": f"{label}: a == b, equal hashes, but len({{a, b}}) == {len({a, b})}"})
+    if _S.get("refused") or "table_error" in _S:
+        # the table of this run does not describe the source (broken obligation, reported by the runner):
+        # no model-vs-code comparison, the monitors above have run
+        tags.append("K-skipped:translator-refused")
+        return
     if drv is not None:
         notes = []
         ea, eb = encode(a, notes), encode(b, notes)
@@ -1071,10 +1133,230 @@ def run_obj(case, drv):
     return {"k": k, "mon": mon, "tags": tags + [f"obj:{case['what']}"], "nontrivial": bool(pairs)}
 
 
+def build_order_pairs(what, rng):
+    """Pairs of objects with the same content reached along different construction orders (builder operations,
+    replace chains, dict / graph insertion orders, concatenation grouping permuted).  Every class with its own
+    __eq__/__hash__ has at least one such pair; whether a pair is equal is decided by the real `==`."""
+    import sympy
+    import pharmpy.model as PM
+    from pharmpy.basic import Expr, Matrix, Unit
+    from pharmpy.internals.immutable import frozenmapping
+    from pharmpy.model.execution_steps import EstimationStep
+    pairs = []
+
+    def shuffled(xs):
+        ys = list(xs)
+        rng.shuffle(ys)
+        return ys
+
+    def chain(obj, steps):
+        for kw in steps:
+            obj = obj.replace(**kw)
+        return obj
+
+    def system(comp_order, flow_order, comps, flows, detour):
+        cb = PM.CompartmentalSystemBuilder()
+        for nme in comp_order:
+            cb.add_compartment(comps[nme])
+        if detour is not None:                      # add a flow, take it away again, add it later with the others
+            u, v, r = flows[detour]
+            cb.add_flow(comps.get(u, PM.output), comps.get(v, PM.output), r)
+            cb.remove_flow(comps.get(u, PM.output), comps.get(v, PM.output))
+        for key in flow_order:
+            u, v, r = flows[key]
+            cb.add_flow(comps.get(u, PM.output), comps.get(v, PM.output), r)
+        return PM.CompartmentalSystem(cb)
+
+    def random_system_pair():
+        comps = {"CENTRAL": PM.Compartment.create("CENTRAL", doses=(PM.Bolus.create("AMT"),))}
+        flows = {"out": ("CENTRAL", "OUTPUT", "CL/V1")}
+        for i in range(rng.randint(0, 2)):
+            nme = f"PERIPHERAL{i + 1}"
+            comps[nme] = PM.Compartment.create(nme)
+            flows[f"c2p{i}"] = ("CENTRAL", nme, f"Q{i}/V1")
+            flows[f"p2c{i}"] = (nme, "CENTRAL", f"Q{i}/VP{i}")
+        if rng.random() < 0.5:
+            comps["DEPOT"] = PM.Compartment.create("DEPOT", doses=(PM.Bolus.create("AMT"),))
+            comps["CENTRAL"] = PM.Compartment.create("CENTRAL")
+            flows["abs"] = ("DEPOT", "CENTRAL", "KA")
+        a = system(list(comps), list(flows), comps, flows, None)
+        b = system(shuffled(comps), shuffled(flows), comps, flows, rng.choice([None] + list(flows)))
+        return a, b
+
+    if what == "odes":
+        for i in range(3):
+            a, b = random_system_pair()
+            pairs.append((f"builder-order-{i}", a, b))
+    elif what == "statements":
+        a, b = random_system_pair()
+        s1, s2, s3 = PM.Assignment.create("K", "TH1"), PM.Assignment.create("V1", "TH2*WGT"), PM.Assignment.create("Y", "F + EPS1")
+        pairs.append(("same-content-systems", PM.Statements([s1, s2, a, s3]), PM.Statements((s1, s2, b, s3))))
+        pairs.append(("grouping", (s1 + s2) + (a + s3), s1 + (s2 + b) + s3))
+        pairs.append(("before-after", PM.Statements([s1, s2, a, s3]).before_odes + b + PM.Statements([s3]), PM.Statements([s1, s2, a, s3])))
+    elif what == "parameters":
+        ps = [PM.Parameter.create(f"P{i}", round(rng.uniform(0.1, 3), 3), lower=0) for i in range(rng.randint(2, 5))]
+        a = PM.Parameters.create(ps)
+        b = PM.Parameters.create(ps[:1])
+        for q in ps[1:]:
+            b = b + q
+        pairs.append(("create-vs-add", a, b))
+        steps = [{"init": 1.5}, {"fix": True}, {"upper": 10.0}, {"lower": 0.05}]
+        pairs.append(("replace-chain", chain(ps[0], steps), chain(ps[0], list(reversed(steps)))))
+        inits = {q.name: q.init + 0.25 for q in ps}
+        pairs.append(("set-inits-order", a.set_initial_estimates(inits), a.set_initial_estimates(dict(reversed(list(inits.items()))))))
+    elif what == "columninfo":
+        base = PM.ColumnInfo.create("WGT")
+        cats = [("a", 1), ("b", 2), ("c", 3)]
+        steps = [{"type": "covariate"}, {"scale": "ratio"}, {"descriptor": "body weight"}, {"unit": "kg"}, {"drop": False},
+                 {"datatype": "float64"}]
+        pairs.append(("replace-chain", chain(base, steps), chain(base, shuffled(steps))))
+        pairs.append(("create-vs-replace", PM.ColumnInfo.create("WGT", type="covariate", unit="kg"),
+                      base.replace(unit="kg").replace(type="covariate")))
+        c1 = PM.ColumnInfo.create("SEX", continuous=False, categories=dict(cats))
+        c2 = PM.ColumnInfo.create("SEX", continuous=False, categories=dict(shuffled(cats)))
+        pairs.append(("categories-order", c1, c2))
+    elif what == "datainfo":
+        cols = [PM.ColumnInfo.create(n) for n in ["ID", "TIME", "DV", "WGT"]]
+        di = PM.DataInfo.create(cols)
+        edits = [cols[0].replace(type="id"), cols[1].replace(type="idv"), cols[2].replace(type="dv"),
+                 cols[3].replace(type="covariate", descriptor="body weight")]
+        a, b = di, di
+        for cinfo in edits:
+            a = a.set_column(cinfo)
+        for cinfo in shuffled(edits):
+            b = b.set_column(cinfo)
+        pairs.append(("set-column-order", a, b))
+        pairs.append(("create-list-vs-tuple", PM.DataInfo.create(list(edits)), PM.DataInfo.create(tuple(edits))))
+        pairs.append(("types-setter", a, di.set_types(["id", "idv", "dv", "covariate"]).set_column(edits[3])))
+    elif what == "eststep":
+        opts = [("NITER", 5), ("SEED", 7), ("PRINT", 1)]
+        e0 = EstimationStep.create("FOCE")
+        steps = [{"interaction": True}, {"maximum_evaluations": 99}, {"tool_options": dict(opts)}, {"predictions": ("IPRED",)}]
+        a = chain(e0, steps)
+        b = chain(e0, shuffled(steps[:2]) + [{"tool_options": dict(shuffled(opts))}, steps[3]])
+        pairs.append(("replace-chain", a, b))
+        pairs.append(("steps-add", PM.ExecutionSteps.create([a, e0]), PM.ExecutionSteps.create([b]) + e0))
+    elif what == "rvs":
+        d1 = PM.NormalDistribution.create("ETA1", "iiv", 0, "OM1")
+        d2 = PM.NormalDistribution.create("ETA2", "iiv", 0, "OM2")
+        d3 = PM.NormalDistribution.create("EPS1", "ruv", 0, "SI1")
+        a = PM.RandomVariables.create([d1, d2, d3])
+        pairs.append(("create-vs-add", a, PM.RandomVariables.create([d1]) + d2 + d3))
+        pairs.append(("slices", a, a[0:1] + a[1:]))
+        try:
+            j, _ = a.join(["ETA1", "ETA2"])
+            pairs.append(("join-unjoin", a, j.unjoin("ETA1")))
+            j2, _ = a.join(["ETA2", "ETA1"])
+            pairs.append(("join-order", j, j2))
+        except Exception:
+            pass
+        lv = [PM.VariabilityLevel("IIV", True, "ID"), PM.VariabilityLevel("IOV", False, "OCC")]
+        pairs.append(("hierarchy", PM.VariabilityHierarchy(tuple(lv)), PM.VariabilityHierarchy(tuple(lv[:1])) + lv[1]))
+    elif what == "dists":
+        a = PM.NormalDistribution.create("ETA1", "iiv", 0, "OM1")
+        pairs.append(("normal-replace", a, PM.NormalDistribution.create("X", "ruv", 1, "Q").replace(name="ETA1").replace(level="iiv")
+                      .replace(mean=0).replace(variance="OM1")))
+        var = [["A", "B"], ["B", "C"]]
+        j1 = PM.JointNormalDistribution.create(["E1", "E2"], "iiv", [0, 0], var)
+        j2 = PM.JointNormalDistribution.create(("E1", "E2"), "IIV", Matrix([0, 0]), Matrix(sympy.Matrix(var)))
+        pairs.append(("joint-constructors", j1, j2))
+    elif what == "basic":
+        pairs.append(("expr-commutative", Expr("A + B*C"), Expr("C*B + A")))
+        pairs.append(("expr-from-sympy", Expr("A + 2"), Expr(sympy.Symbol("A") + 2)))
+        pairs.append(("matrix", Matrix([["A", "B"], ["B", "C"]]), Matrix(sympy.Matrix([["A", "B"], ["B", "C"]]))))
+        pairs.append(("unit", Unit("kg*m"), Unit("m*kg")))
+    elif what == "mappings":
+        items = [(f"k{i}", rng.randint(0, 5)) for i in range(rng.randint(2, 5))]
+        a = frozenmapping(dict(items))
+        pairs.append(("insertion-order", a, frozenmapping(dict(shuffled(items)))))
+        b = frozenmapping(dict(items[:1]))
+        for kk, vv in shuffled(items[1:]):
+            b = b.replace(kk, vv)
+        pairs.append(("replace-order", a, b))
+    elif what == "compartment":
+        c0 = PM.Compartment.create("CENTRAL")
+        steps = [{"doses": (PM.Bolus.create("AMT"),)}, {"lag_time": "ALAG"}, {"bioavailability": "F1"}, {"input": "R"}]
+        pairs.append(("replace-chain", chain(c0, steps), chain(c0, shuffled(steps))))
+        pairs.append(("infusion", PM.Infusion.create("AMT", rate="R1"), PM.Infusion.create("AMT", admid=1, rate="R1", duration=None)))
+    elif what == "model":
+        m = _base_model(0)
+        P = m.parameters.set_initial_estimates({"POP_CL": 0.01})
+        S = m.statements.reassign("S1", "VC*1")
+        pairs.append(("replace-order", m.replace(parameters=P).replace(statements=S), m.replace(statements=S).replace(parameters=P)))
+        dvs = [("Y", 1), ("Y2", 2)]
+        try:
+            pairs.append(("dv-order", m.replace(dependent_variables=dict(dvs)), m.replace(dependent_variables=dict(reversed(dvs)))))
+        except Exception:
+            pass
+        pairs.append(("reload", m, _S["M"].load_example_model("pheno")))
+    return pairs
+
+
+def run_orders(case, drv):
+    rng = random.Random(case["seed"])
+    k, mon, tags = [], [], []
+    try:
+        pairs = build_order_pairs(case["what"], rng)
+    except Exception as e:
+        if os.environ.get("VERIF_DEBUG_ORDERS"):
+            raise
+        # a constructor refusing what the unchanged tree accepts is not this monitor's subject; visible in the distribution
+        return {"tags": [f"orders:{case['what']}:construction-raises:{type(e).__name__}"], "nontrivial": False}
+    for label, a, b in pairs:
+        compare_pair(a, b, drv, k, mon, tags, f"orders:{case['what']}/{label}")
+    return {"k": k, "mon": mon, "tags": tags + [f"orders:{case['what']}"], "nontrivial": bool(pairs)}
+
+
+def run_commute(case, drv):
+    """a = g(f(m)) and b = f(g(m)): wherever the two results (or components of them) are equal, equality must be
+    consistent with hashing; an equal component of b put into a gives an equal container."""
+    M, Model = _S["M"], _S["Model"]
+    k, mon, tags = [], [], []
+    (fn, fkw), (gn, gkw) = COMMUTING[case["f"]], COMMUTING[case["g"]]
+    m = _base_model(case["recipe"])
+
+    def app(model, name, kw):
+        with warnings.catch_warnings(), contextlib.redirect_stdout(io.StringIO()):
+            warnings.simplefilter("ignore")
+            return getattr(M, name)(model, **copy.deepcopy(kw))
+    try:
+        a = app(app(m, fn, fkw), gn, gkw)
+        b = app(app(m, gn, gkw), fn, fkw)
+    except Exception as e:
+        return {"tags": [f"commute:raises:{type(e).__name__}"], "nontrivial": False}
+    label = f"{gn}({fn}(m)) vs {fn}({gn}(m))"
+    compare_pair(a, b, drv, k, mon, tags, label)
+    equal_parts = 0
+    for (la, ca), (lb, cb) in zip(_components(a), _components(b)):
+        compare_pair(ca, cb, drv, k, mon, tags, f"{label} .{la}")
+        try:
+            same = bool(ca == cb) and ca is not cb
+        except Exception:
+            same = False
+        if not same:
+            continue
+        equal_parts += 1
+        # exchange the equal component: the containers must be equal and hash equal too
+        try:
+            if la == "ode_system":
+                st = a.statements
+                st2 = st.before_odes + cb + st.after_odes
+                compare_pair(st, st2, drv, k, mon, tags, f"{label} statements with the equal ode_system exchanged")
+                compare_pair(a, a.replace(statements=st2), drv, k, mon, tags, f"{label} model with the equal ode_system exchanged")
+            elif la in ("parameters", "random_variables", "statements", "datainfo", "execution_steps"):
+                compare_pair(a, a.replace(**{la: cb}), drv, k, mon, tags, f"{label} model with the equal {la} exchanged")
+        except Exception as e:
+            tags.append(f"commute:exchange-raises:{type(e).__name__}")
+    tags.append(f"commute:equal-parts={equal_parts}")
+    tags.append("commute:models-equal" if a == b else "commute:models-differ")
+    return {"k": k, "mon": mon, "tags": tags, "nontrivial": True}
+
+
 def run_case(case, drv):
     import time
     t0 = time.time()
-    res = run_call(case, drv) if case["kind"] == "call" else run_obj(case, drv)
+    kind = case["kind"]
+    res = (run_call if kind == "call" else run_orders if kind == "orders" else run_commute if kind == "commute" else run_obj)(case, drv)
     dt = time.time() - t0
     if dt > 3 and os.environ.get("VERIF_DEBUG"):   # timing is not part of the (deterministic) evidence
         res.setdefault("tags", []).append(f"slow>3s:{case.get('fn', case.get('what'))}:recipe{case.get('recipe', '')}:{int(dt)}s")
